@@ -187,10 +187,22 @@ def _models(draw, stratum):
 
 
 def _rename(text, ren):
-    # custom form names are distinct identifiers of >= 3 letters: plain token replacement on the JSON text
-    for old, new in ren.items():
-        text = text.replace('"%s"' % old, '"\x00%s"' % new)
-    return text.replace("\x00", "")
+    """rename custom forms (their definitions and the calls of them inside other formulas) - and nothing else: a
+    formula may be called 'constant' or 'buck' like the standard forms 'as.constant', 'as.buck' it uses"""
+    def walk(e):
+        if isinstance(e, dict):
+            if e.get("o") == "custom" and e.get("f") in ren:
+                e["f"] = ren[e["f"]]
+            for x in e.values():
+                walk(x)
+        elif isinstance(e, list):
+            for x in e:
+                walk(x)
+    cs = json.loads(text)
+    for c in cs:
+        walk(c["expr"])
+        c["name"] = ren.get(c["name"], c["name"])
+    return json.dumps(cs)
 
 
 @st.composite
